@@ -14,7 +14,7 @@ func init() { registry["C02"] = propC02 }
 func propC02() *Property {
 	return &Property{
 		ID:          "C02",
-		Explanation: "Static provenance rules: the pairing (document, URL that served it) and (object, validated id) is shown to stay intact from the socket to the item constructors. Decided: (R1) every call of an item constructor receives (object, id) as results #0/#1 of one client.FetchUnknown call with its error checked, or the parentObject/parentIdentifier pair stored from such a call under parentErr == nil; (R2) every source handed to FetchUnknown traces back to nil (user input) or to the id field of an item — which is stored only from the constructor's validated id — and inside the constructors embedded values are taken from the constructor's own object and paired with its own id; (R3) on every acyclic path of FetchUnknown to a success return (phi operands resolved along the path) the returned id is nil, or it is the id read from the returned object and the path knows that the object's paired source (the source parameter for embedded input, result #1 of the same FetchURL call for fetched input) is non-nil and has the same Host as the id; (R4) jtp.Get reports its own URL as source on success (C03.R1) and forwards triples unchanged; (R5) client.FetchURL returns the three fields of one bundle built from one jtp.Get call; (R6) there is no side door: jtp.Get, FetchURL and FetchFromFile are called only from their documented callers. Not decided: end-to-end behaviour on multi-host worlds, library URL semantics (Host normalisation, case).",
+		Explanation: "Static provenance rules: the pairing (document, URL that served it) and (object, validated id) is shown to stay intact from the socket to the item constructors. Decided: (R1) every call of an item constructor receives (object, id) as results #0/#1 of one client.FetchUnknown call with its error checked, or the parentObject/parentIdentifier pair stored from such a call under parentErr == nil; (R2) every source handed to FetchUnknown traces back to nil (user input) or to the id field of an item — which is stored only from the constructor's validated id — and inside the constructors embedded values are taken from the constructor's own object and paired with its own id; (R3) on every acyclic path of FetchUnknown to a success return (phi operands resolved along the path) the returned id is nil, or it is the id read from the returned object and the path knows that the object's paired source (the source parameter for embedded input, result #1 of the same FetchURL call for fetched input) is non-nil and has the same Host as the id; (R4) jtp.Get reports its own URL as source on success (C03.R1) and forwards triples unchanged; (R5) client.FetchURL returns the three fields of one bundle built from one jtp.Get call; (R6) there is no side door: jtp.Get, FetchURL and FetchFromFile are called only from their documented callers. (R2, addition) a URL read straight out of a document by an object.Object accessor is not a validated id and is reported as a source. Not decided: end-to-end behaviour on multi-host worlds, library URL semantics (Host normalisation, case).",
 		Assumptions: []string{"singleflight.Group.Do returns the value produced by the closure for the same key", "url.URL.Host of a parsed URL is the authority that was dialled"},
 		Rules: []Rule{
 			{ID: "C02.R1", Title: "constructors receive (object, id) pairs from one FetchUnknown call", Floor: 8, Run: c02R1},
@@ -166,6 +166,11 @@ func c02R2(c *Ctx) {
 			if k.kind == nValue {
 				if call, ok := k.v.(*ssa.Call); ok {
 					if sc := call.Call.StaticCallee(); sc != nil && P.IsServitorFunc(sc) {
+						// a URL read straight out of a document (object.Object accessors) is
+						// whatever the document says, not a validated id
+						if P.PkgOf(sc) == "servitor/object" {
+							bad = append(bad, "read from a document by "+sc.Name()+" at "+P.InstrPos(call)+": an unvalidated URL chosen by whoever served the document")
+						}
 						continue
 					}
 				}
